@@ -90,3 +90,29 @@ func VC15_SignedUpdateFaults() {
 	}
 	vsym.Reach("end")
 }
+
+// VC15_ShortReads: the file delivers its bytes in short reads (no error, as io.Reader allows): the
+// read either fails or returns exactly the stored attributes and value, never a wrong value.
+func VC15_ShortReads() {
+	efs, rec := vNewFS()
+	rec.exists = true
+	rec.shortReads = true
+	v, _ := vSymVar()
+	v.Attributes = 0 // no required attribute: the stored mask always suffices
+	rec.content = vsym.Bytes("file", 12)
+	rec.content = rec.content[:vsym.Concrete(len(rec.content), 64)]
+	vsym.Assume(len(rec.content) >= 4)
+	sink := &vSink{}
+	attrs, err := efs.GetVarWithAttributes(v, sink)
+	if err == nil {
+		c := rec.content
+		vsym.Assert(uint32(attrs) == uint32(c[0])|uint32(c[1])<<8|uint32(c[2])<<16|uint32(c[3])<<24, "the stored attributes are returned")
+		vsym.Assert(sink.called, "the value is decoded")
+		vsym.AssertBytesEq(sink.got, c[4:], "the value returned is the stored value, however the reads were split")
+		vsym.Reach("ok")
+	}
+	if rec.nshort > 0 {
+		vsym.Reach("short")
+	}
+	vsym.Reach("end")
+}
